@@ -1,7 +1,12 @@
 #!/usr/bin/env python3
 """Translator T1: every `Query::…` arm of `InboundQueryService::process_inbound`
-   (src/synchronisation/peer_outbound_service.rs), its guard expression and its database call
-   -> lean/DiscretModel/Gen/ServeTable.lean : List Entry (kind, guard, source, guardedRoomIsQueried)
+   (src/synchronisation/peer_outbound_service.rs), its guard expression and its database call,
+   the membership re-check in front of the arms (which request kinds it covers),
+   and (T1b) the admit / revoke decision of `LocalPeerService::process_local_event` for
+   `LocalEvent::RoomDefinitionChanged` (src/synchronisation/peer_inbound_service.rs)
+   -> lean/DiscretModel/Gen/ServeTable.lean :
+        serveTable : List Entry (kind, guard, source, guardedRoomIsQueried, recheck)
+        eventRule : EventRule (admit test, revokes)      code : Code := ⟨serveTable, eventRule⟩
 
    usage: serve_table.py [--repo /repo] [--out FILE]       (python3 stdlib only, regex level)
 Also lists the variants of `enum Query` (src/synchronisation/mod.rs) so that the Lean side can check that
@@ -102,6 +107,83 @@ def analyse(variant, vars_, arm):
     raise ParseError("Query::%s: unrecognised guard %r" % (variant, g[0]))
 
 
+RECHECK_BODY = ("if peer.allowed_room.contains(V) {"
+                " let key = verifying_key.lock().await.clone();"
+                " let (reply, receive) = oneshot::channel::<HashSet<Uid>>();"
+                " let recheck = AuthorisationMessage::RoomsForPeer(key, now(), reply);"
+                " let _ = peer.db.auth.send(recheck).await;"
+                " if !receive.await.is_ok_and(|rooms| rooms.contains(V)) { peer.allowed_room.remove(V); }"
+                " }")
+
+
+def recheck_prelude(body, src):
+    """the request kinds whose room is re-validated before the arms: the statement
+         if let Query::A(v, ..) | Query::B(v, ..) | … = &msg.query { <RECHECK_BODY with V := v> }
+       in front of `match msg.query`. Nothing in front of the match -> no kind. Anything else -> ParseError."""
+    m = re.search(r"match\s+msg\s*\.\s*query\s*\{", body)
+    pre = body[:m.start()].strip()
+    if not pre: return []
+    m = re.match(r"if\s+let\s+(.*?)=\s*&\s*msg\s*\.\s*query\s*\{", pre, re.S)
+    if not m: raise ParseError("process_inbound: unrecognised statement in front of `match msg.query`")
+    b = m.end() - 1
+    e = match_close(pre, b)
+    if pre[e + 1:].strip(): raise ParseError("process_inbound: unrecognised statement after the membership re-check")
+    kinds, var = [], None
+    for alt in m.group(1).split("|"):
+        a = re.match(r"\s*Query\s*::\s*(\w+)\s*\(\s*(\w+)\s*((?:,\s*_\s*)*)\)\s*$", alt)
+        if not a: raise ParseError("membership re-check: unrecognised pattern %r" % alt.strip())
+        if a.group(1) not in KIND: raise ParseError("membership re-check: unknown request kind %s" % a.group(1))
+        if var not in (None, a.group(2)): raise ParseError("membership re-check: patterns bind different variables")
+        var = a.group(2)
+        kinds.append(KIND[a.group(1)])
+    if squash(pre[b + 1:e]) != squash(RECHECK_BODY.replace("V", var)):
+        raise ParseError("membership re-check: unrecognised body")
+    # the names the body relies on must be the crate's own items
+    for need in (r"date_utils\s*::\s*now\b", r"authorisation_service\s*::\s*AuthorisationMessage\b"):
+        if not re.search(need, src): raise ParseError("membership re-check: `%s` is not imported from the crate" % need)
+    return kinds
+
+
+def event_rule(repo):
+    """(admit test, revokes) of the `LocalEvent::RoomDefinitionChanged(room)` arm of process_local_event"""
+    src = strip_comments(open(os.path.join(repo, "src/synchronisation/peer_inbound_service.rs")).read())
+    _, body = fn_of(impl_block(src, "LocalPeerService"), "process_local_event")
+    m = re.search(r"LocalEvent\s*::\s*RoomDefinitionChanged\s*\(\s*(\w+)\s*\)\s*=>\s*\{", body)
+    if not m: raise ParseError("process_local_event: no RoomDefinitionChanged arm")
+    room = m.group(1)
+    b = m.end() - 1
+    arm = body[b + 1:match_close(body, b)]
+    if not re.search(r"let\s+key\s*=\s*remote_key\s*\.\s*lock\s*\(\s*\)\s*\.\s*await", arm):
+        raise ParseError("process_local_event: `key` is not the connection's proven key")
+    g = first_if(arm)
+    if g is None: raise ParseError("process_local_event: the room is admitted without a test")
+    cond = squash(g[0])
+    if cond in ("%s.is_user_valid_at(&key,crate::date_utils::now())" % room, "%s.is_user_valid_at(&key,now())" % room,
+                "%s.is_user_valid_at(&key,date_utils::now())" % room):
+        admit = "validNow"
+    elif cond == "%s.has_user(&key)" % room:
+        admit = "hasUser"
+    else:
+        raise ParseError("process_local_event: unrecognised admission test %r" % g[0])
+    adds = [a.start() for a in re.finditer(r"\.\s*add_allowed_room\s*\(", arm)]
+    if len(adds) != 1 or not (g[1] < adds[0] < g[2]):
+        raise ParseError("process_local_event: add_allowed_room is not (only) inside the tested branch")
+    if squash(arm[adds[0]:arm.index(")", adds[0]) + 1]) != ".add_allowed_room(%s.id)" % room:
+        raise ParseError("process_local_event: the admitted room is not the event's room")
+    rest = arm[g[2] + 1:].strip()
+    revokes = False
+    if rest.startswith("else"):
+        eb = rest.find("{")
+        if eb < 0 or rest[4:eb].strip(): raise ParseError("process_local_event: unrecognised else branch")
+        ee = match_close(rest, eb)
+        if squash(rest[eb + 1:ee]) != "inbound_query_service.remove_allowed_room(%s.id);" % room or rest[ee + 1:].strip():
+            raise ParseError("process_local_event: unrecognised else branch")
+        revokes = True
+    elif rest:
+        raise ParseError("process_local_event: unrecognised statement after the admission test")
+    return admit, revokes
+
+
 def query_variants(mod_src):
     m = re.search(r"\benum\s+Query\s*\{", mod_src)
     if not m: raise ParseError("enum Query not found")
@@ -124,7 +206,11 @@ def extract(repo):
     src = strip_comments(open(os.path.join(repo, "src/synchronisation/peer_outbound_service.rs")).read())
     mod = strip_comments(open(os.path.join(repo, "src/synchronisation/mod.rs")).read())
     _, body = fn_of(impl_block(src, "InboundQueryService"), "process_inbound")
+    rechecked = recheck_prelude(body, src)
     table = [analyse(v, vs, arm) for v, vs, arm in arms_of(body)]
+    table = [(k, g, s, q, k in rechecked) for k, g, s, q in table]
+    for k in rechecked:
+        if k not in [t[0] for t in table]: raise ParseError("membership re-check names a request kind without an arm")
     variants = query_variants(mod)
     for v in variants:
         if v not in KIND: raise ParseError("enum Query has an unknown variant %s" % v)
@@ -132,13 +218,17 @@ def extract(repo):
     hb = impl_block(src, "RemotePeerHandle")
     _, addb = fn_of(hb, "add_allowed_room")
     if squash(addb) != "self.allowed_room.insert(room);": raise ParseError("RemotePeerHandle::add_allowed_room changed")
-    return table, variants
+    # … and it is what the serving loop does with a room id received from the event handler
+    _, startb = fn_of(impl_block(src, "InboundQueryService"), "start")
+    if not re.search(r"Some\s*\(\s*(\w+)\s*\)\s*=>\s*peer\s*\.\s*add_allowed_room\s*\(\s*\1\s*\)", startb):
+        raise ParseError("InboundQueryService::start: the room channel no longer feeds add_allowed_room")
+    return table, variants, event_rule(repo)
 
 
 HEADER = """import DiscretModel.Model.Serve
 /-
 GENERATED by /verif/translators/serve_table.py from the working tree of the repository on every run of
-./check C08 — do not edit. Source: %s/src/synchronisation/peer_outbound_service.rs
+./check C08 — do not edit. Source: %s/src/synchronisation/peer_outbound_service.rs, peer_inbound_service.rs, mod.rs
 -/
 namespace Discret.Serve.Gen
 open Discret.Serve
@@ -148,16 +238,21 @@ open Discret.Serve
 def render(repo):
     head = HEADER % repo
     try:
-        table, variants = extract(repo)
+        table, variants, (admit, revokes) = extract(repo)
     except (ParseError, OSError) as e:
         msg = str(e).replace("-/", "- /")
         ident = "T1_cannot_parse__" + re.sub(r"\W+", "_", str(e))[:150]
         return head + "\n/-- translator T1 could not read the serving code: the obligations of C08 are not discharged.\n    %s -/\ndef translatorError : String := %s\n\nend Discret.Serve.Gen\n" % (msg, ident), str(e)
     out = [head, "/-- one entry per `Query::…` arm of `process_inbound`, in source order -/", "def serveTable : List Entry := ["]
-    out.append(",\n".join("  ⟨.%s, .%s, .%s, %s⟩" % (k, g, s, "true" if q else "false") for k, g, s, q in table))
+    tf = lambda b: "true" if b else "false"
+    out.append(",\n".join("  ⟨.%s, .%s, .%s, %s, %s⟩" % (k, g, s, tf(q), tf(r)) for k, g, s, q, r in table))
     out.append("]\n")
     out.append("/-- the variants of `enum Query` (src/synchronisation/mod.rs) -/")
     out.append("def queryKinds : List QueryKind := [" + ", ".join("." + KIND[v] for v in variants) + "]\n")
+    out.append("/-- the `LocalEvent::RoomDefinitionChanged` arm of `LocalPeerService::process_local_event`\n"
+               "    (src/synchronisation/peer_inbound_service.rs): admission test, presence of a revoking else branch -/")
+    out.append("def eventRule : EventRule := ⟨.%s, %s⟩\n" % (admit, tf(revokes)))
+    out.append("def code : Code := ⟨serveTable, eventRule⟩\n")
     out.append("end Discret.Serve.Gen")
     return "\n".join(out) + "\n", None
 
